@@ -73,12 +73,12 @@ fn input_kinds() -> Vec<InputKind> {
         v.push(InputKind { label: "unresolved-reference", files: f, start: w.start.clone(), start_exists: true, should_succeed: false });
     }
     {
-        // read succeeds, write fails: a message part that refers to a global ATTRIBUTE
+        // a message part that refers to a global ATTRIBUTE (until fix c87dcc0 this failed while WRITING)
         let mut f = to_files(&w);
         let t = String::from_utf8(f[0].1.clone()).unwrap();
         let t = t.replacen("</xs:schema>", "  <xs:attribute name=\"ZvGlobalAttr\" type=\"xs:string\"/>\n    </xs:schema>", 1);
         f[0].1 = b(t.replacen("element=\"tns:GetThing\"", "element=\"tns:ZvGlobalAttr\"", 1));
-        v.push(InputKind { label: "failure-while-writing", files: f, start: w.start.clone(), start_exists: true, should_succeed: false });
+        v.push(InputKind { label: "part-refers-to-global-attribute", files: f, start: w.start.clone(), start_exists: true, should_succeed: false });
     }
     {
         let mut f = to_files(&w);
@@ -264,7 +264,7 @@ pub fn check(tier: &str) -> i32 {
     }
     rep.set("evaluations", json!(rows.len()));
     rep.set("distinct_nontrivial", json!(distinct.len()));
-    rep.set("rule", json!("complete product: 14 input outcomes (7 succeed, one of them with an import cycle through the start file, three with file-name forms: no extension, two dots, leading dot; the input directory's name contains a dot; 7 fail at successive stages: missing input, non-UTF-8 sibling, malformed XML, unresolved import, unresolved reference, a failure while writing, unsupported binding) x 5 path spellings x {--output, default .rs path} x pre-existing output {absent, shorter, longer with sentinel tail}; every row is one process run of the real zeep binary in a scratch directory; all rows are distinct and non-trivial"));
+    rep.set("rule", json!("complete product: 14 input outcomes (7 succeed, one of them with an import cycle through the start file, three with file-name forms: no extension, two dots, leading dot; the input directory's name contains a dot; 7 fail at successive stages: missing input, non-UTF-8 sibling, malformed XML, unresolved import, unresolved reference, a part that refers to a global attribute, unsupported binding) x 5 path spellings x {--output, default .rs path} x pre-existing output {absent, shorter, longer with sentinel tail}; every row is one process run of the real zeep binary in a scratch directory; all rows are distinct and non-trivial"));
     rep.set("exhaustive", json!(true));
     rep.assume("the zeep binary is rebuilt from /repo/zeep by the check script before the run");
     rep.assume("success rows are compared with the library output computed in-process from the same file contents");
